@@ -428,6 +428,8 @@ pub fn valid<P: Pad>(call: &Value) -> bool {
         };
         match op {
             "collect" | "setcfg" => true,
+            #[cfg(feature = "weak")]
+            "wnew" => true,
             "new" => !is_live(o),
             #[cfg(feature = "weak")]
             "newcyc" => !is_live(o),
@@ -677,6 +679,18 @@ pub fn exec<P: Pad>(call: &Value) {
                 json!({})
             });
         }
+        #[cfg(feature = "weak")]
+        "wnew" => run_op::<P>(call, || {
+            // Weak::new(): never upgrades, counts are zero, clones behave the same
+            let w: weak::Weak<Node<P>> = weak::Weak::new();
+            let w2 = w.clone();
+            let up = w.upgrade().is_some() || w2.upgrade().is_some();
+            let r = json!({"res": if up { "some" } else { "none" }, "wsc": w.strong_count() + w2.strong_count(), "wwc": w.weak_count() + w2.weak_count(),
+                           "peq": weak::Weak::ptr_eq(&w, &w2)});
+            drop(w);
+            drop(w2);
+            r
+        }),
         #[cfg(feature = "weak")]
         "savew" => run_op::<P>(call, || {
             let p = PROVIDED.with(|c| c.get()) as *const weak::Weak<Node<P>>;
